@@ -9,11 +9,14 @@ Open Scope string_scope.
 (* fields the reader fills without looking at an element name: the element has no attributes and no
    content, and the reader creates it together with its parent *)
 Definition implicit : list (string * string) := [("Stretch", "FillRect"); ("PrstGeom", "AvLst")].
+(* element names that the reader of one list-owning type reacts to itself (owner, name, element type): the content
+   of a structured document tag may hold text runs beside the body-level elements *)
+Definition any_extra : list (string * string * string) := [("SDTContent", "r", "Run")].
 
 Definition I_fields_of := g_fields_of w_schema.
 Definition I_xmlname_of := g_xmlname_of w_xmlname.
 Definition I_cov := g_cov r_known implicit.
-Definition I_elty := g_elty w_xmlname w_roots r_known r_any_cases.
+Definition I_elty := g_elty w_xmlname w_roots r_known r_any_cases any_extra.
 
 Definition I_write := write I_fields_of I_xmlname_of.
 Definition I_read := read I_fields_of I_cov I_elty.
